@@ -646,6 +646,11 @@ impl RenetClient {
                 // New sequence is before this range and not extensible to it
                 // Add new range to the left
                 self.pending_acks.insert(index, sequence..sequence + 1);
+
+                // Limit to 64 pending ranges
+                if self.pending_acks.len() > 64 {
+                    self.pending_acks.remove(0);
+                }
                 return;
             }
         }
